@@ -218,6 +218,32 @@ func runC20(c *Ctx) {
 	for _, p := range []*Prog{c.V1, c.V2} {
 		checkOwnResources(c, p, "H8", nil)
 	}
+	// H9 (= E5/G2, E7 on the simplified disciplines): Stop()/GracefulStop() returning is what orders the
+	// caller's reads after the handlers' writes (Handle runs user code on user data). A completion
+	// signal raised anywhere but in the deferred clean-up of the supervising entry - which first
+	// joins the handlers - lets the caller read while a handler still writes
+	r.Doc("H9", "(= E5, E7, v1 Simple) completion is signalled only by the supervising entry's deferred clean-up, after the handlers are joined", 4)
+	{
+		sub9 := &Ctx{V1: c.V1, V2: c.V2, Tier: c.Tier, R: NewReport("tmp", c.Tier)}
+		signalRules(sub9, c.V1, "E5")
+		if d := c.V1.Disc("priority.Simple"); d != nil {
+			for _, e := range d.Gos {
+				if !e.Multi && e.Parent == nil {
+					childJoinRules(sub9, c.V1.Routine(d, e), "E7")
+				}
+			}
+		}
+		n9 := 0
+		for _, o := range sub9.R.Obls {
+			if strings.Contains(o.Key, "priority.Simple") {
+				n9++
+				r.Check(o.OK, "H9", o.Key, o.Site, o.Detail, o.Detail)
+			}
+		}
+		if n9 == 0 {
+			r.Fail("H9", "v1:priority.Simple", "-", "UNRESOLVED-ANCHOR: no completion signal of v1 Simple found")
+		}
+	}
 	// H7 (= E4): the release channel is closed by the scheduler's defers; a Release call is ordered
 	// before that close only by the scheduler having received it - the deferred wait leaves only
 	// when every counter is zero. Otherwise close(feedback) is concurrent with a send.
@@ -443,6 +469,30 @@ func c20prog(c *Ctx, p *Prog) {
 					for _, root := range ai.Roots(w.Target) {
 						if root.Kind == "global" && root.V == ssa.Value(g) {
 							bad = append(bad, fmt.Sprintf("content mutated (%s) at %s in %s", w.How, p.InstrPos(w.In), p.FnKey(fn)))
+						}
+					}
+				}
+				// the address of the variable (or of a part of it) handed to a call: a method with a
+				// pointer receiver may write it (operands.quantity.SetUint64(q)); only the types of
+				// package sync are made for that
+				for _, b := range fn.Blocks {
+					for _, in := range b.Instrs {
+						call, ok := in.(ssa.CallInstruction)
+						if !ok {
+							continue
+						}
+						for _, a := range call.Common().Args {
+							if _, isPtr := a.Type().Underlying().(*types.Pointer); !isPtr || baseOf(a) != ssa.Value(g) {
+								continue
+							}
+							if _, isLoad := a.(*ssa.UnOp); isLoad {
+								continue
+							}
+							elem := a.Type().Underlying().(*types.Pointer).Elem()
+							if nt, isN := elem.(*types.Named); isN && nt.Obj().Pkg() != nil && (nt.Obj().Pkg().Path() == "sync" || nt.Obj().Pkg().Path() == "sync/atomic") {
+								continue
+							}
+							bad = append(bad, fmt.Sprintf("its address is handed to %s at %s in %s (shared mutable state: concurrent callers race on it)", p.calleeName(call.Common()), p.InstrPos(in), p.FnKey(fn)))
 						}
 					}
 				}
